@@ -24,6 +24,9 @@ Clauses ==
  \cup (IF C.inline.built /\ C.declared.built /\ C.inline.match # C.declared.match THEN {"C19:inline-and-declared-differ"} ELSE {})
  \cup (IF C.inline.built /\ ~C.inline.sentence THEN {"C19:inline-sentence-rejected"} ELSE {})
  \cup (IF C.declared.built /\ ~C.declared.sentence THEN {"C19:declared-sentence-rejected"} ELSE {})
+ \cup (IF C.hasimported /\ C.declared.built /\ ~C.imported.built THEN {"C19:declared-in-imported-file-does-not-build"} ELSE {})
+ \cup (IF C.hasimported /\ C.imported.built /\ C.declared.built /\ C.imported.match # C.declared.match THEN {"C19:declared-in-imported-file-matches-differently"} ELSE {})
+ \cup (IF C.hasimported /\ C.imported.built /\ C.declared.built /\ C.imported.sentence # C.declared.sentence THEN {"C19:declared-in-imported-file-sentence-differs"} ELSE {})
  \cup (IF C.inline.built /\ C.inline.iskw # C.iskw THEN {"C19:inline-keyword-classification"} ELSE {})
  \cup (IF C.declared.built /\ C.declared.iskw # C.iskw THEN {"C19:declared-keyword-classification"} ELSE {})
 Init == cid \in DOMAIN Cases /\ phase = 0
